@@ -206,6 +206,62 @@ flow main
   match Never()
 """, [E("Go"), E("Trig"), E("E1"), E("E2"), ("started", 0), ("finished", 0)])
 
+# same as shared_action, but the history starts after the two flows have started their shared action
+PROGRAMS["shared_action_started"] = dict(PROGRAMS["shared_action"], prefix=[0, 1])
+
+# one flow activates the same flow with the same arguments twice, then ends
+prog("activate_twice", """
+flow act
+  match Ping()
+  send Pong()
+
+flow holder
+  activate act
+  activate act
+  match Fin()
+
+flow main
+  match Go()
+  start holder
+  match Never()
+""", [E("Go"), E("Ping"), E("Fin"), E("Other")],
+     activations={("act", ()): ["holder"]}, react=[("Ping", {}, "Pong", ["holder"])])
+
+# an action used directly as a `when` case loses an action conflict against a more specific flow: the else branch must run
+prog("when_action_conflict", """
+flow winner
+  match Trig(kind="x")
+  start UtteranceBotAction(script="winner") as $w
+  match Never()
+
+flow loser
+  match Trig()
+  when UtteranceBotAction(script="loser")
+    send LoserWhenDone()
+  else
+    send LoserElseDone()
+  match Never()
+
+flow main
+  match Go()
+  start winner
+  start loser
+  match Never()
+""", [E("Go"), E("Trig", kind="x"), E("Trig", kind="y"), ("started", 0), ("finished", 0), E("Other")])
+
+# main is finished explicitly while parked on a match group and restarts
+prog("finish_main", """
+flow restarter
+  match Reset()
+  send FinishFlow(flow_id="main")
+
+flow main
+  activate restarter
+  match A() or B()
+  send Round()
+  match C()
+""", [E("Reset"), E("A"), E("B"), E("C"), E("Other")], prefix=())
+
 # payloads + competing flows in one loop (conflict resolution inside)
 prog("conflict", """
 flow x
